@@ -17,12 +17,16 @@ LEVEL_TEXT = ("Theorems in Coq (Props/C01.v): the signing loop returns exactly t
               "the standard's relation (range of r and s, t<>0, R=r), hence reject out-of-range r/s, r+s=0 mod n and any digest not congruent "
               "mod n; PublicKey.Verify accepts a byte string iff it is the strict DER SEQUENCE of two INTEGERs of an accepted (r,s); ZA is the "
               "standard's ZA with 32-byte coordinates and IDs of 8192 bytes or more are refused; every signature of a key in [1,n-2] verifies "
-              "(under SM2Facts: p, n prime, associativity, ord G = n); distinct attempts and distinct calls read disjoint stream positions.")
+              "(under SM2Facts: p, n prime, associativity, ord G = n); distinct attempts and distinct calls read disjoint stream positions; "
+              "a different public key: P accepts (e,r,s) iff [t]P = R - [s]G for a curve point R with x(R) = r-e mod n, so an accepting key [d]G is one of the "
+              "at most four listed keys [t^-1](R - [s]G); each theorem also exists with its minimal premises (SM2/SM2GroupMin.v); d = n-1 panics (outside the domain).")
 LEVEL_NOTE = ("Relative to C03: the curve methods ScalarBaseMult / ScalarMult / Add / IsOnCurve are taken to be the affine group operations "
               "of EC/SM2Curve.v with infinity written (0,0) (C03 proves that for the Go curve object). Completeness is relative to the premise "
               "SM2Facts (primality of p and n, associativity of the chord-and-tangent law, order of G), visible in the statement. "
               "math/big, cryptobyte and SM3 are modelled (SM3 by the GM/T 0004 transcription SM3Spec), tied by the differential run. "
-              "The retry branches r=0, r+k=n, s=0 cannot be reached through the API with honest hashing: covered by the theorem only. "
+              "The retry branches r=0, r+k=n, s=0 cannot be reached through the API with honest hashing: covered by the theorem and by three vm_compute Examples on the "
+              "model with crafted digests (Props/C01.v: first nonce sent back, result = the standard's pair for the next nonce). For d = n-1 ModInverse returns nil and "
+              "Sm2Sign panics (probe against /repo; model: Panic, theorem C01_sign_invalid_key_panics); the property's domain is d in [1, n-2]. "
               "'never share the same r' is proved as: equal r with equal e forces x([k1]G) = x([k2]G) mod n, and fresh calls read fresh stream positions; "
               "no probability statement is made. If [s]G+[t]P is the point at infinity the code uses x = 0 (the standard is silent). "
               "sm2.Verify(pub, hash, r, s) is the digest-level entry point: it takes the caller's bytes as the integer e without bounding them, so a "
